@@ -868,4 +868,43 @@ example : (do let ty ← Gen.SrcPosTypes.new [1, 0]
               Gen.SrcSaisLms.lms_substring_eq (Gen.SrcPosTypes.is_l_pos ty) (Gen.SrcPosTypes.is_s_pos ty)
                 (Gen.SrcPosTypes.is_lms_pos ty) [1, 0] ty 1 1) = Rs.Res.panic := by decide
 
+/-- **translated `sort_lms_suffixes` (with the translated `is_lms_pos`, `lms_substring_eq`) = the mirror model
+`Sais.sortLmsSuffixes`** on a text SA-IS accepts, for every `construct` of the next recursion level that returns what the
+model's `rec` returns: the naming loop is `Sais.naming` (`reduced_text[reduced_text_pos[p]] = label`, `lms_substring_eq(prev, p)`
+on two different positions, `cast(label)` with `label < count`), then `label + 1 < count` decides between the recursion with the
+`lms_pos` backup and the filter of `pos`.  Hypotheses = what the model-level proof establishes before the call (`pos` a
+duplicate-free list of positions — a permutation after `calc_pos` —, `reduced_text_pos` maps the LMS positions below `count`,
+`count` = number of LMS positions) and what keeps the casts from panicking -/
+theorem sort_lms_suffixes_source_eq_model (castS : Nat → Option Nat)
+    (constructF : List Nat → List Nat → List Nat → Rs.VecMap → List Nat → List Nat → List Nat →
+      Rs.Res (List Nat × List Nat × List Nat × Rs.VecMap × List Nat × List Nat))
+    (t : List Nat) (hv : Sais.Valid t) (cnt : Nat) (rec : List Nat → Sais.St → Sais.St) (s : Sais.St) (bsz : Rs.VecMap)
+    (hsz : t.length + t.length < 2 ^ 64) (hcast : ∀ x, x < cnt → castS x = some x) (hc63 : cnt < 2 ^ 63)
+    (hnd : s.pos.Nodup) (hlt : ∀ p ∈ s.pos, p < t.length) (hne : 0 < s.pos.length)
+    (h0 : s.pos.getD 0 0 < s.redPos.length ∧ s.redPos.getD (s.pos.getD 0 0) 0 < cnt)
+    (hrp : ∀ p ∈ s.pos, Sais.isLms (Sais.tyOf t) p = true → p < s.redPos.length ∧ s.redPos.getD p 0 < cnt)
+    (hcount : (s.pos.filter (Sais.isLms (Sais.tyOf t))).length ≤ cnt)
+    (hrec : ∀ red, ∃ bsz', constructF s.pos s.lmsPos s.redPos bsz s.bStart s.bEnd red =
+      Rs.Res.ok ((rec red s).pos, (rec red s).lmsPos, (rec red s).redPos, bsz', (rec red s).bStart, (rec red s).bEnd))
+    (hback : ∀ red, ∀ p ∈ (rec red s).pos, p < s.lmsPos.length) :
+    ∃ bsz', Gen.SrcSaisLms.sort_lms_suffixes (Gen.SrcPosTypes.is_l_pos (Sais.tyOf t)) (Gen.SrcPosTypes.is_s_pos (Sais.tyOf t))
+        (Gen.SrcPosTypes.is_lms_pos (Sais.tyOf t)) castS constructF s.pos s.lmsPos s.redPos bsz s.bStart s.bEnd t
+        (Sais.tyOf t) cnt =
+      Rs.Res.ok ((Sais.sortLmsSuffixes rec t (Sais.tyOf t) cnt s).pos, (Sais.sortLmsSuffixes rec t (Sais.tyOf t) cnt s).lmsPos,
+        (Sais.sortLmsSuffixes rec t (Sais.tyOf t) cnt s).redPos, bsz', (Sais.sortLmsSuffixes rec t (Sais.tyOf t) cnt s).bStart,
+        (Sais.sortLmsSuffixes rec t (Sais.tyOf t) cnt s).bEnd) :=
+  Thm.GenSrcSaisLms.sort_lms_suffixes_eq_model _ _ _ castS constructF t (Sais.tyOf t) cnt rec s bsz (Sais.length_tyOf t) hsz
+    (fun p hp => Sais.sym_ne_last hv p hp)
+    (fun q hq => Thm.GenSrcPosTypes.is_lms_pos_eq_model _ q (by rw [Sais.length_tyOf]; exact hq))
+    hcast hc63 hnd hlt hne h0 hrp hcount hrec hback
+
+-- the naming of `2 1 3 1 3 1 3 0` through the translated code (sorted `pos`, LMS positions 1, 3, 5, 7 ↦ indices 0..3): the
+-- equal LMS substrings at 3 and 1 get one label (reduced text `2 2 1 0`), `label + 1 = 3 < 4`: the recursion is entered (a stub)
+example : (do
+    let ty ← Gen.SrcPosTypes.new [2, 1, 3, 1, 3, 1, 3, 0]
+    let r ← Gen.SrcSaisLms.sort_lms_suffixes (Gen.SrcPosTypes.is_l_pos ty) (Gen.SrcPosTypes.is_s_pos ty)
+      (Gen.SrcPosTypes.is_lms_pos ty) some (fun _ _ _ _ _ _ red => Rs.Res.ok (red, [], [], [], [], []))
+      [7, 5, 3, 1, 0, 6, 4, 2] [1, 3, 5, 7] [0, 0, 0, 1, 0, 2, 0, 3] [] [] [] [2, 1, 3, 1, 3, 1, 3, 0] ty 4
+    pure r.1) = Rs.Res.ok [2, 2, 1, 0] := by decide
+
 end RbV.Thm.C03
